@@ -41,8 +41,33 @@ Definition op_name (o : op) : string :=
   | RemoveXattr _ _ => "RemoveXattr" | ListXattrs _ => "ListXattrs"
   end.
 
+(* A narrower tag inside the link-resolution corner: the reference resolves the
+   operation's path by following EXACTLY its budget of links (it fails with one
+   less), the reference's step succeeds, and the implementation refuses.  No
+   listed finding covers this: the code's limits are the reference's budget
+   (both are maxLinks), and a chain of exactly maxLinks links must resolve. *)
+Definition op_path (o : op) : option path :=
+  match o with
+  | Stat p | Lstat p | ReadDir p | ReadFile p | OpenFile p _ _ | Create p | WriteFile p _ _
+  | Chmod p _ | Chown p _ _ | Chtimes p _
+  | SetXattr p _ _ | GetXattr p _ | RemoveXattr p _ | ListXattrs p => Some p
+  | _ => None
+  end.
+Definition resolves (r : rres) : bool := match r with RFound _ _ => true | _ => false end.
+Definition at_link_limit (h : list node) (p : path) : bool :=
+  resolves (s_resolve spec_max_links h [0] None p true) &&
+  negb (resolves (s_resolve (pred spec_max_links) h [0] None p true)).
+Definition limit_refused (s : st) (o : op) (sr r : out) : bool :=
+  match op_path o with
+  | Some p => negb (is_failure sr) && is_failure r && at_link_limit (heap s) p
+  | None => false
+  end.
+
 Definition corner_tag (b : backend) (s : st) (o : op) : string :=
   match corner b s o with Some t => t | None => "diverges-inside-envelope" end.
+Definition viol_tag (b : backend) (s : st) (o : op) (sr r : out) : string :=
+  if String.eqb (corner_tag b s o) t_link && limit_refused s o sr r then "link-chain-at-the-limit-refused"
+  else corner_tag b s o.
 
 (* in-memory backends: every step compared with the model (from the model's
    state, which is the implementation's as long as they agree) and with the
@@ -55,7 +80,7 @@ Fixpoint check_steps (b : backend) (s : st) (ops : list op) (obs : list out) : l
       let '(s1', sr) := spec_step s o in
       (* the observed result must be the reference's, and (the model standing
          for the implementation's state) so must the state it leaves *)
-      let vt := if out_match sr r && st_eqb s1 s1' then [] else [String.append "viol:" (corner_tag b s o)] in
+      let vt := if out_match sr r && st_eqb s1 s1' then [] else [String.append "viol:" (viol_tag b s o sr r)] in
       if out_match mr r then vt ++ check_steps b s1 ops' obs'
       else vt ++ [String.append "mismatch:" (op_name o)]
   | _, _ => ["mismatch:observation-count"]
